@@ -5,6 +5,7 @@ import Drpc.Pool
   Tie (T1) for C15: the functions of drpcpool/pool.go and drpcpool/entry.go that `Drpc/Pool.lean`
   mirrors statement by statement have the fingerprints the model was written against.
 -/
+set_option maxRecDepth 100000
 namespace Drpc.Tie.C15
 open Drpc
 
